@@ -157,6 +157,7 @@ def _short_ty(ty):
     return ty
 
 
+HELPER_RESULT = None      # hook (siteguard): description of the value a helper that did not exist in the confirmed tree returns, or None
 PHI = False        # set only while the frozen-skeleton tables are collected (siteguard): excuse-table keys never contain phi(..)
 ALIASES = {}      # short callee name -> canonical role name (set by the check driver from roles.aliases)
 
@@ -173,6 +174,25 @@ def sdesc_operand(B, o, depth=0):
     if p is None:
         return o['k']
     return sdesc_place(B, p, depth)
+
+
+def _tuple_field(s, i):
+    """`tuple(A,B).0` is A (only used for the frozen-skeleton descriptions)"""
+    if not (s.startswith('tuple(') and s.endswith(')')):
+        return None
+    inner, parts, depth_, cur = s[6:-1], [], 0, ''
+    for ch in inner:
+        if ch in '([{<':
+            depth_ += 1
+        elif ch in ')]}>':
+            depth_ -= 1
+        if ch == ',' and depth_ == 0:
+            parts.append(cur)
+            cur = ''
+        else:
+            cur += ch
+    parts.append(cur)
+    return parts[i] if depth_ == 0 and 0 <= i < len(parts) else None
 
 
 def sdesc_place(B, p, depth=0):
@@ -197,7 +217,8 @@ def sdesc_place(B, p, depth=0):
                 un = B.upvar_names[e['i']]
                 s = 'upvar' + (un[un.index('.'):] if '.' in un else '<%s>' % _short_ty(e.get('ty', '')))
             else:
-                s = '%s.%s' % (s, e.get('name', e['i']))
+                picked = _tuple_field(s, e['i']) if PHI else None
+                s = picked if picked is not None else '%s.%s' % (s, e.get('name', e['i']))
         elif e['k'] == 'downcast':
             s = '%s as %s' % (s, e['variant'])
         elif e['k'] == 'index':
@@ -223,6 +244,10 @@ def sdesc_local(B, l, depth=0):
             if c in ('deref', 'deref_mut', 'as_ref', 'as_mut', 'borrow', 'borrow_mut', 'branch', 'into', 'from', 'to_owned', 'clone', 'to_path_buf', 'as_slice', 'as_str', 'must_use',
                      'as_path', 'as_os_str', 'as_mut_slice', 'as_deref', 'into_boxed_path', 'into_path_buf', 'as_mut_str') and t['args']:
                 return sdesc_operand(B, t['args'][0], depth)
+            if PHI and HELPER_RESULT is not None:
+                r = HELPER_RESULT(t, [sdesc_operand(B, a, depth + 1) for a in t['args']])
+                if r is not None:
+                    return r
             return '%s(%s)' % (c, ','.join(sdesc_operand(B, a, depth + 1) for a in t['args'][:3]))
         return sdesc_rv(B, d[4], depth)
     if PHI and 2 <= len(ds) <= 6 and depth <= 2 and all(d[0] in ('call', 'assign') for d in ds):
@@ -248,11 +273,19 @@ def sdesc_rv(B, rv, depth=0):
     if k == 'binop':
         return '%s(%s,%s)' % (rv['op'].replace('WithOverflow', ''), sdesc_operand(B, rv['l'], depth + 1), sdesc_operand(B, rv['r'], depth + 1))
     if k == 'unop':
-        return '%s(%s)' % (rv['op'], sdesc_operand(B, rv['a'], depth + 1))
+        inner = sdesc_operand(B, rv['a'], depth + 1)
+        if PHI and rv['op'] == 'Not':
+            for a_, b_ in (('Eq(', 'Ne('), ('Ne(', 'Eq('), ('Not(', '')):
+                if inner.startswith(a_) and inner.endswith(')'):
+                    return (b_ + inner[len(a_):]) if b_ else inner[len(a_):-1]
+        return '%s(%s)' % (rv['op'], inner)
     if k == 'aggregate':
         head = rv.get('variant') or rv['agg']
         if 0 < len(rv['ops']) <= 3 and rv['agg'] in ('adt', 'tuple'):
-            return '%s(%s)' % (head, ','.join(sdesc_operand(B, o, depth + 1) for o in rv['ops']))
+            inner = [sdesc_operand(B, o, depth + 1) for o in rv['ops']]
+            if PHI and len(inner) == 1 and head in ('Ok', 'Err', 'Some') and inner[0].endswith(' as %s.0' % head):
+                return inner[0][:-len(' as %s.0' % head)]          # Err(e) rebuilt from x's own Err payload is x
+            return '%s(%s)' % (head, ','.join(inner))
         return head
     if k == 'discr':
         return 'discr(%s)' % sdesc_place(B, rv['place'], depth + 1)
